@@ -567,9 +567,20 @@ pub fn panic_signature(msg: &str) -> String {
 impl Sut {
     /// Build the allocator for `cfg` (with `init` possibly overridden), catching panics.
     pub fn try_new(cfg: &Config, init: Init, flush_end: bool) -> Result<Self, Res> {
+        Self::try_new_filled(cfg, init, flush_end, 0)
+    }
+
+    /// Like `try_new`, but the buffers hold `fill` bytes before construction (an
+    /// initialising mode must not depend on what the caller's memory contained)
+    pub fn try_new_filled(cfg: &Config, init: Init, flush_end: bool, fill: u8) -> Result<Self, Res> {
         let classing = cfg.classing.build();
         let ms = LLFree::metadata_size(&classing, cfg.frames);
         let bufs = Bufs::new(&ms, flush_end);
+        if fill != 0 {
+            bufs.local.fill(fill);
+            bufs.trees.fill(fill);
+            bufs.lower.fill(fill);
+        }
         Self::try_with_bufs(cfg, init, bufs)
     }
 
